@@ -425,8 +425,8 @@ def validate_traces(trace_module, cfg_text, traces, *, timeout=900, spec_dir=SPE
             if getattr(res, 'timed_out', False):
                 raise TLCError(f'trace validation timed out after {timeout}s')
             verd = {}
-            for m in re.finditer(r'<<"VERDICT", (\d+), (\d+), (\d+)(?:, (.*?))?>>\s*$', res.stdout, re.M):
-                verd[int(m.group(1))] = (int(m.group(2)), int(m.group(3)), m.group(4))
+            for val in _find_tuples(res.stdout, 'VERDICT'):
+                verd[val[1]] = (val[2], val[3], json.dumps(to_py(val[4:]), default=repr))
             if len(verd) != len(ch):
                 raise TLCError('trace validation produced %d verdicts for %d traces:\n%s'
                                % (len(verd), len(ch), res.stdout[-3000:]))
@@ -448,6 +448,47 @@ def validate_traces(trace_module, cfg_text, traces, *, timeout=900, spec_dir=SPE
             stats['wall_s'] += res.wall_s
             stats['runs'] += 1
     return verdicts, stats
+
+
+def _find_tuples(out, tag):
+    """All `<<"tag", ...>>` values printed by PrintT (TLC pretty-prints long ones over several lines)."""
+    res = []
+    pat = re.compile(r'<<\s*"' + re.escape(tag) + '"')
+    pos = 0
+    while True:
+        m = pat.search(out, pos)
+        if not m:
+            break
+        i = m.start()
+        depth = 0
+        j = i
+        n = len(out)
+        instr = False
+        while j < n:
+            c = out[j]
+            if instr:
+                if c == '\\':
+                    j += 1
+                elif c == '"':
+                    instr = False
+            elif c == '"':
+                instr = True
+            elif out.startswith('<<', j):
+                depth += 1
+                j += 1
+            elif out.startswith('>>', j):
+                depth -= 1
+                j += 1
+                if depth == 0:
+                    break
+            j += 1
+        text = out[i:j + 1]
+        try:
+            res.append(parse_value(text))
+        except Exception as e:
+            raise TLCError(f'cannot parse printed tuple: {e}: {text[:200]}')
+        pos = j + 1
+    return res
 
 
 def cfg_text(spec='Spec', constants=None, invariants=(), properties=(), deadlock=True, constraint=None,
